@@ -17,7 +17,7 @@ from tables import *
 from evalr import SeqV, StructV, RefV, Cell
 import copy
 
-LEVEL = 'proof'
+LEVEL = 'other'
 RULE = 'length agreement: symbolic size of the emission shape vs value of the length field, inductively over the public API'
 TRUSTED = ['Lin/ite decision procedure (engine/sym.py equal)', 'emission-shape interpreter (engine/evalr.py)']
 ASSUMPTIONS = ['narrowing casts of lengths are value-preserving (tables < 4 GiB; C18 owns the narrowing sites)',
